@@ -77,12 +77,18 @@ def make_cache_class(prefix: str) -> type:
                     w.do_query(step[1])
                 elif step[0] == "add":
                     w.do_add(step[1], None)
+                elif step[0] == "raise":
+                    raise CallbackFailure(self.slot)
 
         def __repr__(self) -> str:
             return f"<cache slot={self.slot}>"
 
     Cache.__qualname__ = Cache.__name__ = f"Cache_{prefix}"
     return Cache
+
+
+class CallbackFailure(Exception):
+    """What an application's on_timeout raises in the `raiser` worlds; the loop's exception handler may see this one."""
 
 
 class Probe(RandomNumberCache):
@@ -633,8 +639,9 @@ class Model(core.BfsModel):
                 if st == OUTSTANDING and deadline is not None and deadline <= now - 1e-9:
                     v.append((f"never-resolved|{ref.describe_slot(s)}", f"slot {s} is still outstanding at t={now} "
                               f"although its timeout was due at t={deadline} and the loop is idle [{tag}]"))
-        if w.loop.exceptions:
-            ctx = w.loop.exceptions[0]
+        foreign = [c for c in w.loop.exceptions if not isinstance(c.get("exception"), CallbackFailure)]
+        if foreign:
+            ctx = foreign[0]
             v.append((f"loop-exception:{type(ctx.get('exception')).__name__}", f"asyncio exception handler: "
                       f"{ctx.get('message')} {ctx.get('exception')!r} [{tag}]"))
         if rc._timeout_override is not None or rc._timeout_filters is not None:
@@ -720,6 +727,9 @@ def configs(ctx: core.Ctx) -> list[tuple[Model, int]]:
     selfpop = [SlotSpec(0, 1.0, "value", script=[("query", 0), ("pop", 0), ("query", 0)])]
     retry = [SlotSpec(0, 1.0, "value", script=[("query", 0), ("add", 1), ("query", 0)]), SlotSpec(0, 2.0, "default")]
     popretry = [SlotSpec(0, 1.0, "exception", script=[("pop", 0), ("add", 1), ("query", 0)]), SlotSpec(0, 2.0, "value")]
+    # a callback that fails: the request still timed out exactly once, so its tied futures are completed, a later pop
+    # finds nothing, and the other requests are untouched (B pops A first, then fails)
+    raiser = [SlotSpec(0, 1.0, "value", script=[("raise",)]), SlotSpec(1, 1.0, "exception", script=[("pop", 0), ("raise",)])]
     # distinct identities whose numbers agree modulo 2**16 (popper) / 2**16 and 2**32 (three)
     wide2 = [(0, 0), (0, 65536)]
     wide3 = [(0, 0), (0, 2 ** 32)]
@@ -736,6 +746,7 @@ def configs(ctx: core.Ctx) -> list[tuple[Model, int]]:
             (Model("retry", retry, s), 7),
             (Model("popretry", popretry, s), 7),
             (Model("waiter", waiter, s, waits=(None, 1.0)), 7),
+            (Model("raiser", raiser, s), 8),
             (Model("waiter-twins", waiter2, s, io_pop=False, waits=(None,)), 7),
         ]
     return [
@@ -747,6 +758,7 @@ def configs(ctx: core.Ctx) -> list[tuple[Model, int]]:
         (Model("retry", retry, s), 4),
         (Model("popretry", popretry, s), 4),
         (Model("waiter", waiter, s, waits=(None, 1.0)), 5),
+        (Model("raiser", raiser, s), 5),
     ]
 
 
